@@ -187,7 +187,121 @@ def c18_jobs(tier, seed, rundir):
             TraceJob(NOSSE, 'io', shards=8, args=ex, label='io@' + NOSSE, timeout=3000)]
 
 
+def norm_trace_lines(path):
+    """trace lines with the fields that legitimately differ between environments removed"""
+    out = []
+    with open(path) as f:
+        for ln in f:
+            if ln.startswith('{"e":"cfg"'):
+                continue
+            if ln.startswith('{"e":"op"'):
+                ln = re.sub(r',"leak":-?\d+', '', ln)
+            out.append(ln)
+    return out
+
+
+def c10_post_drive(prop, pairs, traces, rundir, seed, tier):
+    """purity: the same seeded cases executed in different environments (fresh process; allocator poisoning blocks
+    on hand-out and on release; warmed-up block cache whose recycled blocks were filled with ones) must record
+    identical traces - operands, results, return values, permutations - byte for byte"""
+    groups = {}
+    for (job, shard), tr in zip(pairs, traces):
+        fam_cfg = job.label.split('#')[0]
+        groups.setdefault((fam_cfg, shard), []).append((job, tr))
+    out = []
+    ncmp = 0
+    for (fam_cfg, shard), lst in sorted(groups.items()):
+        base_job, base_tr = lst[0]
+        base = norm_trace_lines(base_tr)
+        for job, tr in lst[1:]:
+            other = norm_trace_lines(tr)
+            ncmp += 1
+            if other == base:
+                continue
+            k = 0
+            while k < min(len(base), len(other)) and base[k] == other[k]:
+                k += 1
+            # nearest enclosing op/call line for the report
+            j = k
+            while j >= 0 and j < len(other) and not (other[j].startswith('{"e":"op"') or other[j].startswith('{"e":"call"')):
+                j += 1
+            evl = other[j] if 0 <= j < len(other) else '{}'
+            try:
+                ev = json.loads(evl)
+            except ValueError:
+                ev = {}
+            os.makedirs(V + '/replays', exist_ok=True)
+            path = '%s/replays/%s_impure_%s_%d.txt' % (V, prop, job.label.replace('/', '_').replace('@', '_').replace('#', '_'), shard)
+            with open(path, 'w') as f:
+                f.write('environment %s differs from %s at normalised line %d\nbase : %s\nother: %s\nevent: %s\n' % (
+                    job.label, base_job.label, k + 1, base[k][:2000] if k < len(base) else '<eof>', other[k][:2000] if k < len(other) else '<eof>', evl[:2000]))
+            out.append({'replay': path, 'detail': 'result depends on the environment: %s vs %s, op %s case %s' % (job.label, base_job.label, ev.get('op'), ev.get('case')),
+                        'sig': {'op': ev.get('op', '?'), 'cfg': job.cfg, 'family': job.family, 'reasons': ['impure']}})
+    log('[purity] %d environment pairs compared byte-wise, %d differ' % (ncmp, len(out)))
+    return out
+
+
+C10_FAMS = [('mul', 360), ('move', 480), ('rowops', 320), ('obs', 320), ('elim', 240), ('ple', 200), ('trsm', 200), ('inv', 120), ('solve', 200), ('kernel', 120)]
+
+
+def c10_jobs(tier, seed):
+    jobs = []
+    q = tier == 'quick'
+    for fam, n in C10_FAMS:
+        for env in (0, 3, 7):
+            jobs.append(TraceJob(SMALL, fam, shards=1 if q else 4, args=['--cases', n if q else n * 8, '--env', env, '--extra', 'nobig'],
+                                 label='%s@%s#env%d' % (fam, SMALL, env), timeout=3400))
+        if not q:
+            for env in (0, 7):
+                jobs.append(TraceJob(HOST, fam, shards=2, args=['--cases', n * 2, '--env', env, '--extra', 'nobig'], label='%s@%s#env%d' % (fam, HOST, env), timeout=3400))
+    return jobs
+
+
+ALL_REASONS = ALG_REASONS | {'padding', 'leak', 'no_die_on_bad_dimensions'}
+
+
+def c11_jobs(tier, seed):
+    """every family (owners and windows) under ASan+UBSan; bad-dimension calls; exact leak accounting in the cache-less build"""
+    jobs = []
+    q = tier == 'quick'
+    for fam, n in ALL_FAMS:
+        k = n // 4 if q else n * 2
+        jobs.append(TraceJob(ASAN, fam, shards=1 if q else 4, args=['--cases', k, '--extra', 'nobig'], label='%s@asan' % fam, timeout=3400))
+        jobs.append(TraceJob(ASAN, fam, shards=1 if q else 4, args=['--cases', k, '--extra', 'views,nobig'], label='%s-views@asan' % fam, timeout=3400))
+    jobs.append(TraceJob(ASAN, 'baddims', shards=1 if q else 4, args=['--cases', 300 if q else 3000], label='baddims@asan', timeout=3400))
+    jobs.append(TraceJob(SMALL, 'baddims', shards=1 if q else 4, args=['--cases', 300 if q else 3000, '--extra', 'views'], label='baddims-views@' + SMALL, timeout=3400))
+    for fam, n in ALL_FAMS:   # leak accounting (exact without the allocator caches)
+        jobs.append(TraceJob(TS, fam, shards=1 if q else 2, args=['--cases', n // 4 if q else n, '--extra', 'nobig'], label='%s-leak@%s' % (fam, TS), timeout=3400))
+    return jobs
+
+
+C12_CFGS_Q = [SMALL, HOST, NOSSE, 'small_nosse_cache_seq', 'mid_sse_ts_omp', 'host_nosse_cache_omp']
+C12_CFGS_T = C12_CFGS_Q + ['mid_sse_cache_seq', 'small_sse_ts_seq', 'host_sse_ts_seq', 'small_sse_cache_omp', 'host_sse_cache_omp', 'mid_nosse_cache_seq',
+                           'small_nosse_ts_omp', 'host_nosse_ts_seq', 'mid_nosse_ts_omp', 'small_nosse_ts_seq']
+C12_FAMS = [('mul', 240), ('elim', 160), ('ple', 120), ('trsm', 120), ('inv', 80), ('solve', 120), ('kernel', 80)]
+
+
+def c12_jobs(tier, seed):
+    """the identical seeded op list (C01-C07) in every build configuration; all are judged by the one
+    configuration-free oracle, so they agree with each other"""
+    jobs = []
+    q = tier == 'quick'
+    for cfg in (C12_CFGS_Q if q else C12_CFGS_T):
+        for fam, n in C12_FAMS:
+            jobs.append(TraceJob(cfg, fam, shards=1 if q else 2, args=['--cases', n if q else n * 4, '--extra', 'nobig' if q else ''], label='%s@%s' % (fam, cfg), timeout=3400,
+                                 env={'OMP_NUM_THREADS': '3'}))
+    return jobs
+
+
 PROPS = {
+    'C10': dict(level='model_checking', reasons={'padding', 'result', 'crash', 'unexpected_die', 'unknown_op'}, jobs=c10_jobs, mc=lambda tier: [], post_drive=c10_post_drive,
+                assumptions=GEN_ASSUME + ['environments: fresh process; allocator wrapper poisoning every block on hand-out (0xA5) and on release (0x5A); '
+                                          'warm-up pass of the same case followed by filling every cached block with ones; destinations pre-filled with random data']),
+    'C11': dict(level='other', reasons=ALL_REASONS, jobs=c11_jobs, mc=lambda tier: [],
+                assumptions=['undefined behaviour and out-of-bounds accesses are observed by clang ASan+UBSan instrumentation on the explored executions (TLA+ has no notion of C object bounds)',
+                             'leak accounting is exact only in the thread-safe (cache-less) build']),
+    'C12': dict(level='model_checking', reasons=ALG_REASONS, jobs=c12_jobs, mc=lambda tier: [], assumptions=GEN_ASSUME + [
+        'configurations are a finite set of builds (cache triples host/small/mid x sse2 x caches x openmp), not all triples']),
     'C18': dict(level='model_checking', reasons=ALG_REASONS | {'padding'}, prepare=c18_prepare, jobs=c18_jobs, mc=lambda tier: [],
                 assumptions=['libpng itself is trusted; process termination by libpng\'s error path counts as rejection (the property allows termination)',
                              'a truncated but syntactically readable JCF file may be rejected or read up to the cut (both allowed); index errors must be rejected',
@@ -299,6 +413,15 @@ def run_property(prop, tier, seed):
     with ThreadPoolExecutor(max_workers=vlib.NCPU) as ex:
         traces = list(ex.map(lambda js: vlib.run_driver(js[0], rundir, seed, tier, js[1]), pairs))
     log('[drive] %d trace(s) recorded in %.0fs' % (len(traces), time.time() - t))
+    if 'post_drive' in P:
+        for v in P['post_drive'](prop, pairs, traces, rundir, seed, tier):
+            kf = vlib.match_known(known, prop, v['sig'])
+            if kf:
+                msg = kf['id'] + ': ' + kf['what']
+                if msg not in res['known']:
+                    res['known'].append(msg)
+            else:
+                res['violations'].append({'replay': v['replay'], 'detail': v['detail']})
     t = time.time()
     with ThreadPoolExecutor(max_workers=vlib.NCPU) as ex:
         results = list(ex.map(lambda jt: vlib.run_tlc_trace(jt[0][0], jt[1], rundir), zip(pairs, traces)))
@@ -401,6 +524,8 @@ def run_property(prop, tier, seed):
         'rejections_left_to_other_properties': other,
     }
     res['coverage'].update(extra_cov)
+    if P['level'] == 'other':
+        res['coverage']['explanation'] = P.get('explanation', 'spec-enumerated executions observed with sanitizer instrumentation; abort discipline and allocation balance judged by TLC')
     return res
 
 
